@@ -29,7 +29,7 @@ use std::sync::Mutex;
 pub const META: PropertyMeta = PropertyMeta {
     id: "C15",
     level: "exploration",
-    rule: "case = (entry point, seed type + entropy, optional second seed, mutation list); the seed is the valid encoding of a value built by the C14 generators for the entry point's own type (or a related type); mutations: bit flip, byte set, insert, delete, truncate, length-field edit (a u32 that looks like a length, or any offset, overwritten with 0, 1, v-1, v+1, remaining+1, 2^24, 2^24+1, 2^31, 2^32-1), splice with a second seed, tag substitution, or a short random string (<= 64 B) instead of a seed. Enumerated sub-checks: truncate/<entry> decodes every proper prefix of valid encodings <= 2 KiB (file-level readers: <= 768 B in the quick tier), 2 (file-level: 1) seeds per shard and entry in the quick tier, 60 (12) in the thorough tier; every u16 kind tag for the four event decoders and EventRecord::decode_event (each tag with an empty body, a random body and the bodies of two valid events) and every u8 value of the leading tag byte of Cipher, KeyDerivation, Comparison, Secret, SecretMeta, SharedAccess, AeadPack, FileContent, SecretSigner. Non-trivial = the input differs from the unmutated seed and either its first structural bytes (1 byte; 2 for events; 8 for vault/header) are intact or the decoder returned a value. Distinct = distinct case.",
+    rule: "case = (entry point, seed type + entropy, optional second seed, mutation list); the seed is the valid encoding of a value built by the C14 generators for the entry point's own type (or a related type); mutations: bit flip, byte set, insert, delete, truncate, length-field edit (a u32 that looks like a length, or any offset, overwritten with 0, 1, v-1, v+1, remaining+1, 2^24, 2^24+1, 2^31-1, 2^31, 2^32-1, 2^32-4, 2^32-8, 2^32-12, 2^32-16, 2v, 2^16-1), splice with a second seed, tag substitution, or a short random string (<= 64 B) instead of a seed. Enumerated sub-checks: length-wrap/<entry> overwrites each u32 of a valid encoding that looks like a length (up to 24 offsets spread over the encoding; 6 for file-level readers in the quick tier) with each of 2^32-1 .. 2^32-17, 2^31-1, 2^31, 2^31+1 (the values that wrap when a header or trailer size is added in 32 bits); truncate/<entry> decodes every proper prefix of valid encodings <= 2 KiB (file-level readers: <= 768 B in the quick tier), 2 (file-level: 1) seeds per shard and entry in the quick tier, 60 (12) in the thorough tier; every u16 kind tag for the four event decoders and EventRecord::decode_event (each tag with an empty body, a random body and the bodies of two valid events) and every u8 value of the leading tag byte of Cipher, KeyDerivation, Comparison, Secret, SecretMeta, SharedAccess, AeadPack, FileContent, SecretSigner. Non-trivial = the input differs from the unmutated seed and either its first structural bytes (1 byte; 2 for events; 8 for vault/header) are intact or the decoder returned a value. Distinct = distinct case.",
     assumptions: &[
         "a hang is never inferred from wall-clock time: a decoder call that does not answer within 120 s is killed and reported as inconclusive",
         "allocation accounting counts requested heap bytes of the whole worker process (single decode in flight); a single request or a peak above 64 MiB + 16 x input length is a violation, the request itself is refused so that the verdict does not depend on the overcommit policy of the machine",
@@ -848,7 +848,7 @@ pub enum Mutation {
 }
 
 pub fn len_edit_value(how: u8, cur: u32, remaining: usize) -> u32 {
-    match how % 9 {
+    match how % 16 {
         0 => 0,
         1 => 1,
         2 => cur.wrapping_sub(1),
@@ -857,7 +857,15 @@ pub fn len_edit_value(how: u8, cur: u32, remaining: usize) -> u32 {
         5 => 1 << 24,
         6 => (1 << 24) + 1,
         7 => 1 << 31,
-        _ => u32::MAX,
+        8 => u32::MAX,
+        // values that wrap when a small header / trailer size is added in 32 bits
+        9 => u32::MAX - 7,
+        10 => u32::MAX - 3,
+        11 => u32::MAX - 11,
+        12 => u32::MAX - 15,
+        13 => (1 << 31) - 1,
+        14 => cur.wrapping_mul(2),
+        _ => 0xFFFF,
     }
 }
 
@@ -942,7 +950,7 @@ fn mutation_strategy() -> impl Strategy<Value = Mutation> {
         2 => (any::<u16>(), proptest::collection::vec(any::<u8>(), 1..9)).prop_map(|(pos, bytes)| Mutation::Insert { pos, bytes }),
         2 => (any::<u16>(), any::<u8>()).prop_map(|(pos, len)| Mutation::Delete { pos, len }),
         3 => any::<u16>().prop_map(|pos| Mutation::Truncate { pos }),
-        6 => (any::<u16>(), 0u8..9, prop::bool::weighted(0.25)).prop_map(|(slot, how, any)| Mutation::LenEdit { slot, how, any }),
+        6 => (any::<u16>(), 0u8..16, prop::bool::weighted(0.25)).prop_map(|(slot, how, any)| Mutation::LenEdit { slot, how, any }),
         2 => (any::<u16>(), any::<u16>()).prop_map(|(at, other_at)| Mutation::Splice { at, other_at }),
         1 => any::<u16>().prop_map(|tag| Mutation::TagU16 { tag: tag % 40 }),
         1 => any::<u8>().prop_map(|tag| Mutation::TagU8 { tag }),
@@ -1269,6 +1277,120 @@ fn run_truncations(ctx: &Ctx, shard: &Shard, rep: &mut Report, only: Option<&str
 }
 
 // ---------------------------------------------------------------------------
+// enumerated wrap-boundary length edits
+// ---------------------------------------------------------------------------
+
+#[derive(Clone, Debug, Serialize, Deserialize, PartialEq, Eq, Hash)]
+pub struct WrapCase {
+    pub entry: String,
+    pub seed: String,
+    pub entropy: Vec<u8>,
+    /// byte offset of the overwritten u32
+    pub offset: usize,
+    pub value: u32,
+}
+
+pub fn wrap_values() -> Vec<u32> {
+    let mut v: Vec<u32> = (0..=16u32).map(|k| u32::MAX - k).collect();
+    v.extend([(1u32 << 31) - 1, 1 << 31, (1 << 31) + 1]);
+    v
+}
+
+fn length_offsets(b: &[u8], cap: usize) -> Vec<usize> {
+    if b.len() < 4 {
+        return vec![];
+    }
+    let c: Vec<usize> = (0..=b.len() - 4)
+        .filter(|i| {
+            let v = u32::from_le_bytes(b[*i..*i + 4].try_into().expect("4 bytes")) as usize;
+            v <= b.len() - i - 4 + 8 && v > 0
+        })
+        .collect();
+    if c.len() <= cap {
+        return c;
+    }
+    // spread evenly, always keep the first and the last candidate
+    (0..cap).map(|k| c[k * (c.len() - 1) / (cap - 1)]).collect()
+}
+
+pub fn check_wrap(ctx: &Ctx, c: &WrapCase) -> (CaseInfo, CheckResult) {
+    let mut info = CaseInfo::default();
+    let Some((idx, entry)) = ctx.entry(&c.entry) else {
+        return (info, Err(Failure::new("harness", format!("unknown entry {}", c.entry))));
+    };
+    let Some(mut b) = seed_bytes(&ctx.types, &c.seed, &c.entropy) else {
+        return (info, Err(Failure::new("harness", format!("unknown seed type {}", c.seed))));
+    };
+    if c.offset + 4 > b.len() {
+        return (info, Ok(()));
+    }
+    b[c.offset..c.offset + 4].copy_from_slice(&c.value.to_le_bytes());
+    info.nontrivial = true;
+    info.inner_evals = 1;
+    info.class(format!("entry:{}", entry.name));
+    info.class("input:length-field-at-wrap-boundary");
+    let o = exec(idx, &b);
+    let r = judge(entry, &b, &o, &mut info).map_err(|mut f| {
+        f.message = format!("[u32 at offset {} of a valid {} encoding set to {:#x}] {}", c.offset, c.seed, c.value, f.message);
+        f
+    });
+    (info, r)
+}
+
+fn run_length_wraps(ctx: &Ctx, shard: &Shard, rep: &mut Report, only: Option<&str>) {
+    for e in &ctx.entries {
+        if e.text {
+            continue;
+        }
+        if let Some(o) = only {
+            if !e.name.starts_with(o) {
+                continue;
+            }
+        }
+        let fs = e.name.starts_with("fs/");
+        let (per_shard, cap, limit) = match (shard.tier, fs) {
+            (Tier::Quick, false) => (1usize, 24usize, 2048usize),
+            (Tier::Quick, true) => (1, 6, 768),
+            (Tier::Thorough, false) => (20, 48, 4096),
+            (Tier::Thorough, true) => (6, 24, 2048),
+        };
+        let sub = format!("length-wrap/{}", e.name);
+        let mut seen = std::collections::HashSet::new();
+        for k in 0..per_shard {
+            let mut chosen = None;
+            for attempt in 0..8 {
+                let entropy = sample_one(shard, &format!("{sub}#{k}#{attempt}"), &entropy_strategy());
+                let label = &e.seeds[(k + attempt + shard.index as usize) % e.seeds.len()];
+                match seed_bytes(&ctx.types, label, &entropy) {
+                    Some(b) if b.len() >= 4 && b.len() <= limit => {
+                        chosen = Some((label.clone(), entropy, b));
+                        break;
+                    }
+                    _ => {}
+                }
+            }
+            let Some((label, entropy, b)) = chosen else {
+                continue;
+            };
+            'seed: for off in length_offsets(&b, cap) {
+                for v in wrap_values() {
+                    let case = WrapCase { entry: e.name.clone(), seed: label.clone(), entropy: entropy.clone(), offset: off, value: v };
+                    let (info, r) = check_wrap(ctx, &case);
+                    rep.record_case(&sub, hash_of(&case), &info);
+                    if let Err(f) = r {
+                        let known = shard.is_known(&f.signature);
+                        record_enumerated(shard, rep, &sub, serde_json::to_value(&case).unwrap_or(Value::Null), f, &mut seen);
+                        if !known {
+                            break 'seed;
+                        }
+                    }
+                }
+            }
+        }
+    }
+}
+
+// ---------------------------------------------------------------------------
 // exhaustive tag spaces
 // ---------------------------------------------------------------------------
 
@@ -1410,6 +1532,13 @@ fn run_shard(shard: &Shard, rep: &mut Report) {
             eprintln!("[timing] truncations {:.2}s", t0.elapsed().as_secs_f64());
         }
     }
+    {
+        let t0 = std::time::Instant::now();
+        run_length_wraps(&ctx, shard, rep, only.as_deref());
+        if timing && shard.index == 0 {
+            eprintln!("[timing] length wraps {:.2}s", t0.elapsed().as_secs_f64());
+        }
+    }
     if only.is_none() || only.as_deref() == Some("tags") {
         let t0 = std::time::Instant::now();
         run_tag_spaces(&ctx, shard, rep);
@@ -1430,6 +1559,11 @@ fn replay(_shard: &Shard, sub: &str, case: &Value) -> CheckResult {
     let r = if sub == FUZZ_SUB {
         match from_case::<FuzzDecodeCase>(case) {
             Ok(c) => check_fuzz_decode(&ctx, &c).1,
+            Err(e) => Err(Failure::new("harness", e)),
+        }
+    } else if sub.starts_with("length-wrap/") {
+        match from_case::<WrapCase>(case) {
+            Ok(c) => check_wrap(&ctx, &c).1,
             Err(e) => Err(Failure::new("harness", e)),
         }
     } else if sub.starts_with("truncate/") {
